@@ -1,14 +1,14 @@
 import AL.Props.C11
-#print axioms AL.C11.machine_eq_spec'
-#print axioms AL.C11.machine_eq_spec_counterexample
-#print axioms AL.C11.exMiss_machine
+#print axioms AL.C11.machine_eq_spec
+#print axioms AL.C11.exMiss_fixed
 #print axioms AL.C11.exMiss_spec
-#print axioms AL.C11.exGhost_machine
+#print axioms AL.C11.exGhost_fixed
 #print axioms AL.C11.exGhost_spec
-#print axioms AL.C11.exGhostStar_machine
+#print axioms AL.C11.exGhostStar_fixed
 #print axioms AL.C11.exGhostStar_spec
-#print axioms AL.C11.exGhostIdx_machine
+#print axioms AL.C11.exGhostIdx_fixed
 #print axioms AL.C11.exGhostIdx_spec
+#print axioms AL.C11.witnesses_agree
 #print axioms AL.C11.no_root_no_report
 #print axioms AL.C11.safe_call_silent
 #print axioms AL.C11.documented_path_reported'
